@@ -700,11 +700,13 @@ double Circuit::expandCellsByFactor(const std::vector<float> &expansionFactor,
 
   // Compute placeable cell area
   long long cellArea = 0LL;
-  long long expandedArea = 0LL;
+  // Keep the expanded area fractional: truncating it after each cell
+  // underestimates it, and the density cap is then exceeded
+  double expandedArea = 0.0;
   for (int i = 0; i < nbCells(); ++i) {
     if (!cellIsFixed_[i]) {
       cellArea += area(i);
-      expandedArea += expansionFactor[i] * area(i);
+      expandedArea += (double)expansionFactor[i] * (double)area(i);
     }
   }
 
@@ -722,7 +724,7 @@ double Circuit::expandCellsByFactor(const std::vector<float> &expansionFactor,
     return 1.0;
   }
 
-  double expandedDensity = (double)expandedArea / (double)rowArea;
+  double expandedDensity = expandedArea / (double)rowArea;
   if (expandedDensity > maxDensity) {
     // Adjust expansion so it's not too much
     double ratio = (maxDensity - density) / (expandedDensity - density);
